@@ -70,9 +70,7 @@ pub struct Tok {
 }
 
 fn print_atom(v: &V, popts: u32) -> Vec<u8> {
-    lexpr::to_string_custom(&v.to_value(), opts::print_options(popts))
-        .map(|s| s.into_bytes())
-        .unwrap_or_default()
+    lexpr::to_vec_custom(&v.to_value(), opts::print_options(popts)).unwrap_or_default()
 }
 
 fn push_tokens(v: &V, popts: u32, datum: usize, first_gap_required: bool, out: &mut Vec<Tok>) {
